@@ -44,7 +44,7 @@ func c07Plan(seed int64, tier string) []core.Case {
 }
 
 func tagVal(rng *rand.Rand) string {
-	const chars = "abcdefghijklmnopqrstuvwxyzABCDEFGHIJKLMNOPQRSTUVWXYZ0123456789 .,;=_-/"
+	const chars = "abcdefghijklmnopqrstuvwxyzABCDEFGHIJKLMNOPQRSTUVWXYZ0123456789 .,;=_-/%%\\\"#"
 	n := 1 + rng.Intn(12)
 	b := make([]byte, n)
 	for i := range b {
@@ -157,7 +157,11 @@ func c07Header(rng *rand.Rand) *sam.Header {
 		}
 	}
 	for k := rng.Intn(3); k > 0; k-- {
-		h.Comments = append(h.Comments, "comment "+tagVal(rng))
+		co := "comment " + tagVal(rng)
+		if rng.Intn(4) == 0 {
+			co += "\twith a tab\t" + tagVal(rng) // a comment is the rest of the line
+		}
+		h.Comments = append(h.Comments, co)
 	}
 	return h
 }
@@ -342,6 +346,18 @@ func c07History(r *core.Result, rng *rand.Rand) bool {
 				r.Violate("panic|walk|"+core.TopLibFrame(st), "walking header %d panicked: %v\nhistory: %v", k, pv, hist)
 				return false
 			}
+			if d == "" {
+				// whatever the history, the header parses back from its own text
+				T, err := h.MarshalText()
+				if err == nil {
+					h2, _ := sam.NewHeader(nil, nil)
+					if err := h2.UnmarshalText(T); err != nil {
+						d = fmt.Sprintf("the header's own text does not parse: %v\n%s", err, T)
+					} else if T2, _ := h2.MarshalText(); !bytes.Equal(T, T2) {
+						d = fmt.Sprintf("the header's text changes in a round trip:\n%s\nbecomes\n%s", T, T2)
+					}
+				}
+			}
 			if d != "" {
 				op := "?"
 				if len(hist) > 0 {
@@ -374,7 +390,13 @@ func c07History(r *core.Result, rng *rand.Rand) bool {
 					}
 					old := g.Name()
 					opname = fmt.Sprintf("ReadGroup.SetName(%s->%s)", old, n)
-					err := g.SetName(n)
+					var err error
+					if rng.Intn(3) == 0 {
+						opname = fmt.Sprintf("ReadGroup.Set(ID %s->%s)", old, n)
+						err = g.Set(sam.NewTag("ID"), n)
+					} else {
+						err = g.SetName(n)
+					}
 					switch {
 					case taken && err == nil && g.Name() == n:
 						r.Violate("model|rg-setname|duplicate-accepted", "%s accepted although another read group has that name\nhistory: %v", opname, append(hist, opname))
@@ -399,7 +421,13 @@ func c07History(r *core.Result, rng *rand.Rand) bool {
 					}
 					old := g.UID()
 					opname = fmt.Sprintf("Program.SetUID(%s->%s)", old, n)
-					err := g.SetUID(n)
+					var err error
+					if rng.Intn(3) == 0 {
+						opname = fmt.Sprintf("Program.Set(ID %s->%s)", old, n)
+						err = g.Set(sam.NewTag("ID"), n)
+					} else {
+						err = g.SetUID(n)
+					}
 					switch {
 					case taken && err == nil && g.UID() == n:
 						r.Violate("model|pg-setuid|duplicate-accepted", "%s accepted although another program has that uid\nhistory: %v", opname, append(hist, opname))
@@ -511,8 +539,24 @@ func c07History(r *core.Result, rng *rand.Rand) bool {
 				}
 			case 8:
 				opname = "Clone"
+				cl := h.Clone()
+				// a clone is a deep copy: editing it leaves the original alone
+				T0, _ := h.MarshalText()
+				tg := sam.NewTag("x" + string("abcdefghi"[rng.Intn(9)]))
+				for _, x := range cl.Refs() {
+					x.Set(tg, "edited-in-clone")
+				}
+				for _, x := range cl.RGs() {
+					x.Set(tg, "edited-in-clone")
+				}
+				for _, x := range cl.Progs() {
+					x.Set(tg, "edited-in-clone")
+				}
+				if T1, _ := h.MarshalText(); !bytes.Equal(T0, T1) {
+					r.Violate("clone|not-independent", "setting tag %s on the elements of a clone changed the original header:\n%s\nbecame\n%s\nhistory: %v", tg, T0, T1, append(hist, opname))
+				}
 				if len(live) < 6 {
-					live = append(live, h.Clone())
+					live = append(live, cl)
 				}
 			case 9, 10: // MergeHeaders
 				var src []*sam.Header
@@ -579,6 +623,9 @@ func c07History(r *core.Result, rng *rand.Rand) bool {
 							n, ln = h.Refs()[i].Name(), h.Refs()[i].Len()
 						}
 						l := fmt.Sprintf("@SQ\tSN:%s\tLN:%d", n, ln)
+						if rng.Intn(6) == 0 {
+							l = "@SQ\tSN:" + n // malformed: no length; to be refused, not half-applied
+						}
 						if rng.Intn(2) == 0 {
 							l += "\tAS:asm" + tagVal(rng)
 						}
